@@ -1,0 +1,81 @@
+#ifndef CHESS_ENGINE_VERIF_HOOKS_H_
+#define CHESS_ENGINE_VERIF_HOOKS_H_
+
+// Verification hooks: compiled in only with -DCHESSPP_VERIF, otherwise the macros expand to nothing.
+// The callbacks are installed by an external harness; they observe the search (events) and let a harness
+// park the search thread at chosen points (schedule points).  They never change what the engine computes.
+
+#ifdef CHESSPP_VERIF
+
+#include <cstdint>
+
+namespace engine
+{
+namespace verif
+{
+enum Event : int
+{
+    EV_NODE_ENTER = 0,   // a: depth, b: 0 = search, 1 = quiescence
+    EV_NODE_EXIT = 1,    // a: returned value
+    EV_MOVES = 2,        // a: pointer to the first move of the node's list, b: number of moves
+    EV_DO = 3,           // a: move
+    EV_UNDO = 4,         // a: move
+    EV_NULL_DO = 5,
+    EV_NULL_UNDO = 6,
+    EV_PV_CLEAR = 7,
+    EV_PV_SET = 8,       // a: move
+    EV_PV_ADD = 9,       // a: move (the child's pv is appended)
+    EV_TT_CUT = 10,      // a: table move, b: flag
+    EV_ITER_START = 11,  // a: depth
+    EV_ITER_DONE = 12,   // a: depth, b: value   (only when the iteration's result is accepted)
+    EV_BEST_SET = 13,    // a: move
+    EV_BESTMOVE = 14,    // a: move
+    EV_STOP_SEEN = 15,
+    EV_ASPIRATION = 16,  // a: min bound, b: max bound
+};
+
+enum SchedPoint : int
+{
+    SP_GO_ENTRY = 0,
+    SP_AFTER_INIT = 1,
+    SP_VISIT = 2,
+    SP_ITER_END = 3,
+    SP_BEFORE_BESTMOVE = 4,
+};
+
+using EventFn = void (*)(int kind, int ply, int64_t a, int64_t b);
+using SchedFn = void (*)(int point);
+
+inline EventFn event_fn = nullptr;
+inline SchedFn sched_fn = nullptr;
+
+inline void event(int kind, int ply, int64_t a = 0, int64_t b = 0)
+{
+    if (event_fn) event_fn(kind, ply, a, b);
+}
+
+inline void sched(int point)
+{
+    if (sched_fn) sched_fn(point);
+}
+
+}  // namespace verif
+}  // namespace engine
+
+#define VERIF_EVENT(...) ::engine::verif::event(__VA_ARGS__)
+#define VERIF_SCHED(point) ::engine::verif::sched(point)
+
+#else
+
+#define VERIF_EVENT(...) \
+    do                   \
+    {                    \
+    } while (false)
+#define VERIF_SCHED(point) \
+    do                     \
+    {                      \
+    } while (false)
+
+#endif  // CHESSPP_VERIF
+
+#endif  // CHESS_ENGINE_VERIF_HOOKS_H_
